@@ -8,6 +8,7 @@ import (
 	"go/token"
 	"go/types"
 	"math/big"
+	"reflect"
 	"sort"
 	"strings"
 
@@ -74,6 +75,7 @@ func (c *Ctx) UnknownListTagRefused(pkgs ...string) []core.Ob {
 						seen[tag] = true
 						k++
 						obs = append(obs, c.unknownTagOb(fn, tag, tin, ci, k, maxTag))
+						obs = append(obs, c.endListOb(fn, tag, tin, ci, lp, k))
 					}
 				}
 			}
@@ -1105,4 +1107,1040 @@ func (c *Ctx) AssertToTypeParam(pkg string) []core.Ob {
 			Want: "items are asserted back to the type parameter with the two-result form", Got: "no assertion to a type parameter in " + pkg + " (typed container)"})
 	}
 	return obs
+}
+
+// ---------------------------------------------------------------------------
+// R-COUNT[failed-part-counted]: "the byte counts returned by WriteTo and ReadFrom
+// equal the bytes actually produced and consumed". A composite codec (a method
+// with results (int64, error)) that calls a part's ReadFrom / WriteTo / io.ReadFull
+// / Write and leaves on that call's error hands back a count that includes what
+// the failed part reported: the part may have moved bytes before it failed.
+// Structural: on the error exit that follows the call, the count operand of the
+// return derives from the call's own count result.
+
+func (c *Ctx) FailedPartCounted(pkgs ...string) []core.Ob {
+	var obs []core.Ob
+	fns := []*ssa.Function{}
+	for _, fn := range c.Funcs() {
+		if !inPkgs(fn, pkgs...) || len(fn.Blocks) == 0 {
+			continue
+		}
+		r := fn.Signature.Results()
+		if r.Len() != 2 || !isErrorType(r.At(1).Type()) {
+			continue
+		}
+		if b, ok := r.At(0).Type().Underlying().(*types.Basic); !ok || (b.Kind() != types.Int64 && b.Kind() != types.Int) {
+			continue
+		}
+		switch fn.Name() {
+		case "ReadFrom", "WriteTo":
+			fns = append(fns, fn)
+		}
+	}
+	sortFns(fns)
+	for _, fn := range fns {
+		k := 0
+		for _, b := range fn.Blocks {
+			for _, in := range b.Instrs {
+				call, ok := in.(*ssa.Call)
+				if !ok {
+					continue
+				}
+				tup, ok := call.Type().(*types.Tuple)
+				if !ok || tup.Len() != 2 || !isErrorType(tup.At(1).Type()) {
+					continue
+				}
+				if bt, ok := tup.At(0).Type().Underlying().(*types.Basic); !ok || (bt.Kind() != types.Int64 && bt.Kind() != types.Int) {
+					continue
+				}
+				if !movesBytes(call.Common()) {
+					continue
+				}
+				var cnt, errv *ssa.Extract
+				if call.Referrers() != nil {
+					for _, r := range *call.Referrers() {
+						if ex, ok := r.(*ssa.Extract); ok {
+							if ex.Index == 0 {
+								cnt = ex
+							} else {
+								errv = ex
+							}
+						}
+					}
+				}
+				if errv == nil {
+					continue
+				}
+				// the error exits that test this call's error
+				for _, ret := range errExitsOf(errv) {
+					if len(ret.Results) != 2 {
+						continue
+					}
+					k++
+					o := core.Ob{Rule: "R-COUNT", Key: fmt.Sprintf("%s#failed-part-counted%d", core.FnName(fn), k), Pos: c.P.Pos(call.Pos()), Func: core.FnName(fn), Armed: true, Status: core.OK,
+						Want: "the count returned together with the error of " + shortCallee(call.Common()) + " includes what that call reported (it may have moved bytes before failing)"}
+					if cnt == nil || !derivesFrom(ret.Results[0], cnt, 0) {
+						o.Status = core.Violated
+						o.Got = "the count returned on this error exit does not depend on the failed call's count: bytes the part produced or consumed before it failed are not reported"
+						o.Pos = c.P.Pos(ret.Pos())
+					}
+					obs = append(obs, o)
+				}
+			}
+		}
+	}
+	return obs
+}
+
+func shortCallee(cc *ssa.CallCommon) string {
+	n := calleeName(cc)
+	if i := strings.LastIndex(n, "/"); i >= 0 {
+		n = n[i+1:]
+	}
+	return n
+}
+
+// movesBytes: the call reads from or writes to a stream: ReadFrom/WriteTo/Read/Write methods, io.ReadFull & co.
+func movesBytes(cc *ssa.CallCommon) bool {
+	if cc.IsInvoke() {
+		switch cc.Method.Name() {
+		case "ReadFrom", "WriteTo", "Read", "Write":
+			return true
+		}
+		return false
+	}
+	g := cc.StaticCallee()
+	if g == nil {
+		return false
+	}
+	switch g.Name() {
+	case "ReadFrom", "WriteTo", "Read", "Write":
+		return g.Signature.Recv() != nil
+	case "ReadFull", "ReadAtLeast", "CopyN", "Copy", "WriteString":
+		return core.FnPkg(g) != nil && core.FnPkg(g).Pkg.Path() == "io"
+	}
+	return false
+}
+
+// errExitsOf: the returns reached on the non-nil edge of a test `errv != nil` (directly, within two jumps).
+func errExitsOf(errv ssa.Value) []*ssa.Return {
+	var out []*ssa.Return
+	if errv.Referrers() == nil {
+		return nil
+	}
+	for _, r := range *errv.Referrers() {
+		cmp, ok := r.(*ssa.BinOp)
+		if !ok || (cmp.Op != token.NEQ && cmp.Op != token.EQL) || cmp.Referrers() == nil {
+			continue
+		}
+		if !isNilConst(cmp.X) && !isNilConst(cmp.Y) {
+			continue
+		}
+		for _, u := range *cmp.Referrers() {
+			iff, ok := u.(*ssa.If)
+			if !ok {
+				continue
+			}
+			e := iff.Block().Succs[0]
+			if cmp.Op == token.EQL {
+				e = iff.Block().Succs[1]
+			}
+			for d := 0; d < 3 && e != nil; d++ {
+				if ret, ok := e.Instrs[len(e.Instrs)-1].(*ssa.Return); ok {
+					out = append(out, ret)
+					break
+				}
+				if len(e.Succs) != 1 {
+					break
+				}
+				e = e.Succs[0]
+			}
+		}
+	}
+	return out
+}
+
+// derivesFrom: v is src, or sums / converts / merges values one of which is - computed after src
+// in the same pass through a loop (a running total merged at a loop header above src holds what
+// earlier rounds reported, not this one).
+func derivesFrom(v, src ssa.Value, depth int) bool {
+	if v == src {
+		return true
+	}
+	if depth > 12 {
+		return false
+	}
+	srcBlock := src.(ssa.Instruction).Block()
+	switch x := v.(type) {
+	case *ssa.BinOp:
+		return derivesFrom(x.X, src, depth+1) || derivesFrom(x.Y, src, depth+1)
+	case *ssa.Convert:
+		return derivesFrom(x.X, src, depth+1)
+	case *ssa.ChangeType:
+		return derivesFrom(x.X, src, depth+1)
+	case *ssa.Phi:
+		if x.Block() == srcBlock || x.Block().Dominates(srcBlock) {
+			return false
+		}
+		for _, e := range x.Edges {
+			if derivesFrom(e, src, depth+1) {
+				return true
+			}
+		}
+	case *ssa.UnOp:
+		// a named result / local spilled to memory: a store of a deriving value into the same cell, made after src
+		if al, ok := x.X.(*ssa.Alloc); ok && x.Op == token.MUL && al.Referrers() != nil {
+			for _, r := range *al.Referrers() {
+				if st, ok := r.(*ssa.Store); ok && st.Addr == ssa.Value(al) && (st.Block() == srcBlock || srcBlock.Dominates(st.Block())) && derivesFrom(st.Val, src, depth+1) {
+					return true
+				}
+			}
+		}
+	}
+	return false
+}
+
+// R-UNKTAG[end-list]: "never loops without consuming input". TAG_End has no payload; a list header
+// that names it as the element type with a positive length would have its elements "decoded" without
+// a byte being read (a million dynbt values out of eight bytes). With the element tag assumed 0 and
+// the loop bound assumed positive, no edge leaves the list case without an error.
+func (c *Ctx) endListOb(fn *ssa.Function, tag ssa.Value, tin ssa.Instruction, use ssa.CallInstruction, lp loopInfo, k int) core.Ob {
+	o := core.Ob{Rule: "R-UNKTAG", Key: fmt.Sprintf("end-list:%s#%d", core.FnName(fn), k), Pos: c.P.Pos(use.Pos()), Func: core.FnName(fn), Armed: true, Status: core.OK,
+		Want: "a list header with element tag TAG_End and a positive length is refused (its elements have no bytes: the element loop would make no progress)"}
+	// the loop bound: the header compares its counter with a value read before the loop
+	var bound ssa.Value
+	if iff, ok := lp.header.Instrs[len(lp.header.Instrs)-1].(*ssa.If); ok {
+		if cmp, ok := iff.Cond.(*ssa.BinOp); ok {
+			for _, side := range []ssa.Value{cmp.Y, cmp.X} {
+				v := stripConv(side)
+				if in, ok := v.(ssa.Instruction); ok && !lp.body[in.Block()] {
+					switch v.(type) {
+					case *ssa.Extract, *ssa.Call:
+						bound = v
+					}
+				}
+			}
+		}
+	}
+	if bound == nil {
+		o.Got = "the element loop's bound is not a value read before the loop (not judged)"
+		return o
+	}
+	t := c.TLG()
+	region := func(b *ssa.BasicBlock) bool { return tin.Block().Dominates(b) }
+	okReturn := map[*ssa.Return]bool{}
+	visited := map[*ssa.BasicBlock]bool{}
+	t.ProbeAssumeAll(fn, map[ssa.Value]AV{tag: {P: ivOf(0, 0)}, bound: {P: ivOf(1, 1<<31-1)}}, func(in ssa.Instruction, _ func(ssa.Value) AV, _ func(string) (AV, bool)) {
+		visited[in.Block()] = true
+		ret, ok := in.(*ssa.Return)
+		if !ok || !region(in.Block()) {
+			return
+		}
+		n := len(ret.Results)
+		if n == 0 || !isErrorType(ret.Results[n-1].Type()) || !t.ProbeErrNonNil(ret.Results[n-1]) {
+			okReturn[ret] = true
+		}
+	})
+	feas := t.lastFeas
+	n := 0
+	var pos token.Pos
+	for _, b := range fn.Blocks {
+		if !visited[b] || !region(b) {
+			continue
+		}
+		if ret, ok := b.Instrs[len(b.Instrs)-1].(*ssa.Return); ok && okReturn[ret] {
+			n++
+			pos = ret.Pos()
+		}
+		for _, s := range b.Succs {
+			if !region(s) {
+				if pi := predIndex(s, b); pi >= 0 && feas[s][pi] {
+					n++
+					pos = b.Instrs[len(b.Instrs)-1].Pos()
+				}
+			}
+		}
+	}
+	if n > 0 {
+		o.Status = core.Violated
+		o.Got = "with the element tag assumed TAG_End and the length assumed >= 1 the list case can still end without an error: whether such a list is refused is left to what the element decoder does with TAG_End (an Unmarshaler element accepts it and reads nothing)"
+		if pos.IsValid() {
+			o.Pos = c.P.Pos(pos)
+		}
+	}
+	return o
+}
+
+// ---------------------------------------------------------------------------
+// R-ERRFLOW[end-sentinel]: net/packet turns the NBT decoder's "unexpected
+// TAG_End" into "this optional NBT is absent". That is right for a lone TAG_End
+// byte only: the same sentinel comes (wrapped) out of the middle of a document.
+// And an absent value must not leave the destination holding what an earlier
+// read put there ("regardless of what the destination variable held before").
+// Where a function of the package tests errors.Is(err, nbt.ErrEND) and goes on
+// to report success: (a) that path also lies behind the equal edge of a
+// comparison of a byte counter with 1, (b) it resets the destination through
+// reflect (SetZero / Set).
+
+func (c *Ctx) EndSentinelSwallow(pkg string) []core.Ob {
+	var obs []core.Ob
+	fns := []*ssa.Function{}
+	for _, fn := range c.Funcs() {
+		if inPkgs(fn, pkg) && len(fn.Blocks) > 0 {
+			fns = append(fns, fn)
+		}
+	}
+	sortFns(fns)
+	n := 0
+	for _, fn := range fns {
+		for _, ci := range callsIn(fn, func(name string, cc *ssa.CallCommon) bool {
+			if name != "errors.Is" || len(cc.Args) != 2 {
+				return false
+			}
+			ld, ok := cc.Args[1].(*ssa.UnOp)
+			if !ok {
+				return false
+			}
+			g, ok := ld.X.(*ssa.Global)
+			return ok && g.Name() == "ErrEND"
+		}) {
+			call, ok := ci.(*ssa.Call)
+			if !ok || call.Referrers() == nil {
+				continue
+			}
+			n++
+			o := core.Ob{Rule: "R-ERRFLOW", Key: fmt.Sprintf("end-sentinel:%s", core.FnName(fn)), Pos: c.P.Pos(call.Pos()), Func: core.FnName(fn), Armed: true, Status: core.OK,
+				Want: "the decoder's TAG_End sentinel is taken for \"absent\" only where exactly one byte was consumed, and then the destination is reset"}
+			// the block reached when errors.Is answered true
+			var isTrue *ssa.BasicBlock
+			for _, r := range *call.Referrers() {
+				switch x := r.(type) {
+				case *ssa.If:
+					isTrue = x.Block().Succs[0]
+				case *ssa.UnOp:
+					if x.Op == token.NOT && x.Referrers() != nil {
+						for _, u := range *x.Referrers() {
+							if iff, ok := u.(*ssa.If); ok {
+								isTrue = iff.Block().Succs[1]
+							}
+						}
+					}
+				}
+			}
+			if isTrue == nil {
+				o.Got = "the answer of errors.Is does not decide a branch (not judged)"
+				obs = append(obs, o)
+				continue
+			}
+			// success returns that can be reached from there
+			reach := func(avoid map[*ssa.BasicBlock]bool) []*ssa.BasicBlock {
+				var out []*ssa.BasicBlock
+				seen := map[*ssa.BasicBlock]bool{}
+				work := []*ssa.BasicBlock{isTrue}
+				for len(work) > 0 {
+					b := work[len(work)-1]
+					work = work[:len(work)-1]
+					if seen[b] || avoid[b] {
+						continue
+					}
+					seen[b] = true
+					if ret, isRet := b.Instrs[len(b.Instrs)-1].(*ssa.Return); isRet && len(ret.Results) > 0 {
+						last := ret.Results[len(ret.Results)-1]
+						if isErrorType(last.Type()) && !errKnownNonNil(last, b) {
+							out = append(out, b)
+						}
+					}
+					work = append(work, b.Succs...)
+				}
+				return out
+			}
+			okRets := reach(nil)
+			if len(okRets) == 0 {
+				o.Got = "the sentinel is not turned into success here"
+				obs = append(obs, o)
+				continue
+			}
+			// (a) equal edges of comparisons with the constant 1
+			oneEdges := map[*ssa.BasicBlock]bool{}
+			for _, b := range fn.Blocks {
+				iff, isIf := b.Instrs[len(b.Instrs)-1].(*ssa.If)
+				if !isIf || !(b == isTrue || isTrue.Dominates(b)) {
+					continue
+				}
+				cmp, isCmp := iff.Cond.(*ssa.BinOp)
+				if !isCmp || (cmp.Op != token.EQL && cmp.Op != token.NEQ) {
+					continue
+				}
+				if k, isK := constIntVal(cmp.Y); !isK || k != 1 {
+					continue
+				}
+				e := b.Succs[1]
+				if cmp.Op == token.EQL {
+					e = b.Succs[0]
+				}
+				if len(e.Preds) == 1 {
+					oneEdges[e] = true
+				}
+			}
+			reset := false
+			for e := range oneEdges {
+				for _, b := range fn.Blocks {
+					if !(b == e || e.Dominates(b)) {
+						continue
+					}
+					for _, in := range b.Instrs {
+						if cl, isCall := in.(ssa.CallInstruction); isCall {
+							switch calleeName(cl.Common()) {
+							case "reflect.(Value).SetZero", "reflect.(Value).Set":
+								reset = true
+							}
+						}
+					}
+				}
+			}
+			if around := reach(oneEdges); len(around) > 0 {
+				rb := around[0]
+				o.Status, o.Pos = core.Violated, c.P.Pos(rb.Instrs[len(rb.Instrs)-1].Pos())
+				o.Got = "success is reported for the sentinel wherever it came from: a TAG_End refused in the middle of a document (a non-empty list of TAG_End) ends the field with a nil error and a partly filled value, and the next field is read from the wrong offset"
+			} else if !reset {
+				rb := okRets[0]
+				o.Status, o.Pos = core.Violated, c.P.Pos(rb.Instrs[len(rb.Instrs)-1].Pos())
+				o.Got = "the absent case leaves the destination as it was: a re-used destination keeps the value of the previous read"
+			}
+			obs = append(obs, o)
+		}
+	}
+	if n == 0 {
+		obs = append(obs, core.Ob{Rule: "R-ERRFLOW", Key: "end-sentinel", Armed: true, Status: core.OK,
+			Want: "the decoder's TAG_End sentinel is taken for \"absent\" only where exactly one byte was consumed", Got: "no function of " + pkg + " tests for the sentinel"})
+	}
+	return obs
+}
+
+// ---------------------------------------------------------------------------
+// R-RESET[append-target-truncated]: a decoder method that fills a slice of its
+// receiver by appending inside a loop starts from an empty slice: the same
+// location is assigned (x[:0], nil, a fresh slice) on a block that dominates
+// the loop. Otherwise a second decode into the same value keeps the entries of
+// the first (the carrier then re-encodes both documents' entries).
+
+func (c *Ctx) AppendTargetsTruncated(method string, pkgs ...string) []core.Ob {
+	var obs []core.Ob
+	fns := []*ssa.Function{}
+	for _, fn := range c.Funcs() {
+		if inPkgs(fn, pkgs...) && len(fn.Blocks) > 0 && fn.Name() == method && fn.Signature.Recv() != nil && len(fn.Params) > 0 {
+			if _, isPtr := fn.Params[0].Type().Underlying().(*types.Pointer); isPtr {
+				fns = append(fns, fn)
+			}
+		}
+	}
+	sortFns(fns)
+	for _, fn := range fns {
+		recv := fn.Params[0]
+		k := 0
+		for _, lp := range naturalLoops(fn) {
+			var blocks []*ssa.BasicBlock
+			for b := range lp.body {
+				blocks = append(blocks, b)
+			}
+			sort.Slice(blocks, func(i, j int) bool { return blocks[i].Index < blocks[j].Index })
+			for _, b := range blocks {
+				for _, in := range b.Instrs {
+					st, ok := in.(*ssa.Store)
+					if !ok {
+						continue
+					}
+					path := recvPath(st.Addr, recv)
+					if path == "" {
+						continue
+					}
+					call, ok := st.Val.(*ssa.Call)
+					if !ok {
+						continue
+					}
+					if bi, isB := call.Call.Value.(*ssa.Builtin); !isB || bi.Name() != "append" || len(call.Call.Args) == 0 {
+						continue
+					}
+					if ld, ok := call.Call.Args[0].(*ssa.UnOp); !ok || ld.Op != token.MUL || recvPath(ld.X, recv) != path {
+						continue
+					}
+					k++
+					o := core.Ob{Rule: "R-RESET", Key: fmt.Sprintf("%s#append-target%d:%s", core.FnName(fn), k, path), Pos: c.P.Pos(st.Pos()), Func: core.FnName(fn), Armed: true, Status: core.OK,
+						Want: "the slice " + path + " the loop appends to is emptied before the loop (a second decode into the same value does not keep the first one's entries)"}
+					reset := false
+					for _, d := range fn.Blocks {
+						if lp.body[d] || !d.Dominates(lp.header) {
+							continue
+						}
+						for _, x := range d.Instrs {
+							if s2, ok := x.(*ssa.Store); ok && recvPath(s2.Addr, recv) == path {
+								reset = true
+							}
+						}
+					}
+					if !reset {
+						o.Status = core.Violated
+						o.Got = "nothing assigns " + path + " before the loop: decoding twice into the same value appends the second document's entries to the first's"
+					}
+					obs = append(obs, o)
+				}
+			}
+		}
+	}
+	return obs
+}
+
+// recvPath: addr is the receiver pointer itself ("*") or a chain of field addresses below it ("comp.kvs"); "" otherwise.
+func recvPath(addr ssa.Value, recv *ssa.Parameter) string {
+	var parts []string
+	for i := 0; i < 5; i++ {
+		if addr == ssa.Value(recv) {
+			if len(parts) == 0 {
+				return "*"
+			}
+			return strings.Join(parts, ".")
+		}
+		fa, ok := addr.(*ssa.FieldAddr)
+		if !ok {
+			return ""
+		}
+		st, ok := deref(fa.X.Type()).Underlying().(*types.Struct)
+		if !ok || fa.Field >= st.NumFields() {
+			return ""
+		}
+		parts = append([]string{st.Field(fa.Field).Name()}, parts...)
+		addr = fa.X
+	}
+	return ""
+}
+
+// ---------------------------------------------------------------------------
+// T-SCANSTATE[error-is-recorded]: the text decoder trusts the scanner's final
+// answer: a scan error must still be there when the end of the input is
+// reached. Every function of the scanner that answers with the error code has,
+// on the way to that return, recorded the error in the scanner (stored its
+// error context or its step) or looked at the recorded context. An overflow of
+// the nesting stack that only *returns* the code is forgotten by the next byte:
+// the text is accepted and an unreadable document written.
+
+func (c *Ctx) ScannerErrorRecorded(pkg string) []core.Ob {
+	var obs []core.Ob
+	var errCode *big.Int
+	for _, pk := range c.P.Pkgs {
+		if core.Rel(pk.PkgPath) == pkg {
+			if k, ok := pk.Types.Scope().Lookup("scanError").(*types.Const); ok {
+				if v, ok := constant.Int64Val(k.Val()); ok {
+					errCode = bi(v)
+				}
+			}
+		}
+	}
+	if errCode == nil {
+		return []core.Ob{{Rule: "T-SCANSTATE", Key: "error-is-recorded:anchor", Armed: true, Status: core.Violated, Want: "the scanner's error code is a constant scanError of the package", Got: "not found"}}
+	}
+	fns := []*ssa.Function{}
+	for _, fn := range c.Funcs() {
+		if !inPkgs(fn, pkg) || len(fn.Blocks) == 0 || len(fn.Params) == 0 || fn.Parent() != nil {
+			continue
+		}
+		st, ok := deref(fn.Params[0].Type()).Underlying().(*types.Struct)
+		if !ok {
+			continue
+		}
+		has := false
+		for i := 0; i < st.NumFields(); i++ {
+			if st.Field(i).Name() == "errContext" {
+				has = true
+			}
+		}
+		if has {
+			fns = append(fns, fn)
+		}
+	}
+	sortFns(fns)
+	for _, fn := range fns {
+		scn := fn.Params[0]
+		touches := func(b *ssa.BasicBlock) bool {
+			for _, in := range b.Instrs {
+				switch x := in.(type) {
+				case *ssa.Store:
+					if p := recvPath(x.Addr, scn); p == "errContext" || p == "step" {
+						return true
+					}
+				case *ssa.UnOp:
+					if x.Op == token.MUL && recvPath(x.X, scn) == "errContext" {
+						return true
+					}
+				case ssa.CallInstruction:
+					// a helper of the scanner that records it: s.error(c, "...")
+					if g := x.Common().StaticCallee(); g != nil && len(x.Common().Args) > 0 && x.Common().Args[0] == ssa.Value(scn) && g != fn && storesField(g, "errContext") {
+						return true
+					}
+				}
+			}
+			return false
+		}
+		k := 0
+		// a state function that does nothing but answer with the code is the error state itself
+		if len(fn.Blocks) == 1 && len(fn.Blocks[0].Instrs) == 1 {
+			continue
+		}
+		for _, b := range fn.Blocks {
+			ret, ok := b.Instrs[len(b.Instrs)-1].(*ssa.Return)
+			if !ok || len(ret.Results) != 1 {
+				continue
+			}
+			type cand struct {
+				v    ssa.Value
+				from *ssa.BasicBlock
+			}
+			cands := []cand{{ret.Results[0], b}}
+			if phi, ok := ret.Results[0].(*ssa.Phi); ok && phi.Block() == b {
+				cands = nil
+				for i, e := range phi.Edges {
+					cands = append(cands, cand{e, b.Preds[i]})
+				}
+			}
+			for _, cd := range cands {
+				kv, ok := constIntVal(cd.v)
+				if !ok || kv != errCode.Int64() {
+					continue
+				}
+				k++
+				o := core.Ob{Rule: "T-SCANSTATE", Key: fmt.Sprintf("error-is-recorded:%s#%d", core.FnName(fn), k), Pos: c.P.Pos(ret.Pos()), Func: core.FnName(fn), Armed: true, Status: core.OK,
+					Want: "where a scanner function answers with the error code, the error has been recorded in the scanner (error context / step) on the way"}
+				rec := false
+				for _, d := range fn.Blocks {
+					if (d == cd.from || d.Dominates(cd.from)) && touches(d) {
+						rec = true
+					}
+				}
+				if !rec {
+					o.Status = core.Violated
+					o.Got = "the error code is returned without anything being recorded: the next byte is scanned as if nothing had happened, and the end-of-input check reports success"
+				}
+				obs = append(obs, o)
+			}
+		}
+	}
+	return obs
+}
+
+func storesField(fn *ssa.Function, name string) bool {
+	if len(fn.Params) == 0 {
+		return false
+	}
+	for _, b := range fn.Blocks {
+		for _, in := range b.Instrs {
+			if st, ok := in.(*ssa.Store); ok && recvPath(st.Addr, fn.Params[0]) == name {
+				return true
+			}
+		}
+	}
+	return false
+}
+
+// ---------------------------------------------------------------------------
+// T-SCANSTATE[delegate-makes-current]: some state functions go on with a
+// literal without touching the scanner's step (they answer "continue" and
+// rely on being the current state already). A state that hands a byte to such
+// a function has made it the current state first; otherwise the delegating
+// state stays current and every later byte goes through it again (`[Bogus;1b]`
+// was taken for a byte array: the prefix state stayed current for the whole word).
+
+func (c *Ctx) ScannerDelegateMakesCurrent(pkg string) []core.Ob {
+	var obs []core.Ob
+	var cont *big.Int
+	for _, pk := range c.P.Pkgs {
+		if core.Rel(pk.PkgPath) == pkg {
+			if k, ok := pk.Types.Scope().Lookup("scanContinue").(*types.Const); ok {
+				if v, ok := constant.Int64Val(k.Val()); ok {
+					cont = bi(v)
+				}
+			}
+		}
+	}
+	if cont == nil {
+		return []core.Ob{{Rule: "T-SCANSTATE", Key: "delegate-makes-current:anchor", Armed: true, Status: core.Violated, Want: "the scanner's continue code is a constant scanContinue of the package", Got: "not found"}}
+	}
+	isState := func(fn *ssa.Function) bool {
+		sig := fn.Signature
+		if sig.Recv() != nil || sig.Params().Len() != 2 || sig.Results().Len() != 1 || fn.Parent() != nil || len(fn.Blocks) == 0 {
+			return false
+		}
+		if _, ok := deref(sig.Params().At(0).Type()).Underlying().(*types.Struct); !ok {
+			return false
+		}
+		b, ok := sig.Params().At(1).Type().Underlying().(*types.Basic)
+		r, ok2 := sig.Results().At(0).Type().Underlying().(*types.Basic)
+		return ok && ok2 && b.Kind() == types.Uint8 && r.Kind() == types.Int
+	}
+	var states []*ssa.Function
+	for _, fn := range c.Funcs() {
+		if inPkgs(fn, pkg) && isState(fn) {
+			states = append(states, fn)
+		}
+	}
+	sortFns(states)
+	// states that answer "continue" on a path on which they have not set the step
+	assumesCurrent := map[*ssa.Function]bool{}
+	for _, g := range states {
+		for _, b := range g.Blocks {
+			ret, ok := b.Instrs[len(b.Instrs)-1].(*ssa.Return)
+			if !ok || len(ret.Results) != 1 {
+				continue
+			}
+			type cand struct {
+				v    ssa.Value
+				from *ssa.BasicBlock
+			}
+			cands := []cand{{ret.Results[0], b}}
+			if phi, ok := ret.Results[0].(*ssa.Phi); ok && phi.Block() == b {
+				cands = nil
+				for i, e := range phi.Edges {
+					cands = append(cands, cand{e, b.Preds[i]})
+				}
+			}
+			for _, cd := range cands {
+				if kv, ok := constIntVal(cd.v); !ok || kv != cont.Int64() {
+					continue
+				}
+				set := false
+				for _, d := range g.Blocks {
+					if d == cd.from || d.Dominates(cd.from) {
+						for _, in := range d.Instrs {
+							if st, ok := in.(*ssa.Store); ok && recvPath(st.Addr, g.Params[0]) == "step" {
+								set = true
+							}
+						}
+					}
+				}
+				if !set {
+					assumesCurrent[g] = true
+				}
+			}
+		}
+	}
+	for _, f := range states {
+		k := 0
+		for _, b := range f.Blocks {
+			for idx, in := range b.Instrs {
+				call, ok := in.(*ssa.Call)
+				if !ok {
+					continue
+				}
+				g := call.Call.StaticCallee()
+				if g == nil || core.Origin(g) == f || !assumesCurrent[core.Origin(g)] {
+					continue
+				}
+				g = core.Origin(g)
+				k++
+				o := core.Ob{Rule: "T-SCANSTATE", Key: fmt.Sprintf("delegate-makes-current:%s->%s#%d", core.FnName(f), g.Name(), k), Pos: c.P.Pos(call.Pos()), Func: core.FnName(f), Armed: true, Status: core.OK,
+					Want: "before a byte is handed to " + g.Name() + " (which goes on with a literal without setting the step) that state has been made the current one"}
+				made := false
+				isG := func(v ssa.Value) bool {
+					if fv, ok := v.(*ssa.Function); ok {
+						return core.Origin(fv) == g
+					}
+					return false
+				}
+				for _, d := range f.Blocks {
+					if !(d == b || d.Dominates(b)) {
+						continue
+					}
+					for j, x := range d.Instrs {
+						if d == b && j >= idx {
+							break
+						}
+						if st, ok := x.(*ssa.Store); ok && recvPath(st.Addr, f.Params[0]) == "step" && isG(st.Val) {
+							made = true
+						}
+					}
+				}
+				if !made {
+					o.Status = core.Violated
+					o.Got = "the delegating state stays current: the bytes that follow are handed to " + f.Name() + " again instead of continuing the literal in " + g.Name()
+				}
+				obs = append(obs, o)
+			}
+		}
+	}
+	return obs
+}
+
+// ---------------------------------------------------------------------------
+// R-ORDER[compressor-closed]: a gzip / zlib writer holds back its last block
+// and the trailer until Close. A function of the module that creates one over
+// a buffer and hands the buffer's bytes out has a Close call that the created
+// writer can reach (directly, through the interface variable it was put in, or
+// through an assertion to io.Closer) and from which the exit is reached.
+// Without it the stream is cut short and cannot be read back.
+
+func (c *Ctx) CompressorClosed(pkgs ...string) []core.Ob {
+	var obs []core.Ob
+	fns := []*ssa.Function{}
+	for _, fn := range c.Funcs() {
+		if inPkgs(fn, pkgs...) && len(fn.Blocks) > 0 {
+			fns = append(fns, fn)
+		}
+	}
+	sortFns(fns)
+	for _, fn := range fns {
+		k := 0
+		for _, ci := range callsIn(fn, func(name string, _ *ssa.CallCommon) bool {
+			switch name {
+			case "compress/gzip.NewWriter", "compress/gzip.NewWriterLevel", "compress/zlib.NewWriter", "compress/zlib.NewWriterLevel", "compress/zlib.NewWriterLevelDict", "compress/flate.NewWriter":
+				return true
+			}
+			return false
+		}) {
+			call, ok := ci.(*ssa.Call)
+			if !ok {
+				continue
+			}
+			k++
+			o := core.Ob{Rule: "R-ORDER", Key: fmt.Sprintf("compressor-closed:%s#%d", core.FnName(fn), k), Pos: c.P.Pos(call.Pos()), Func: core.FnName(fn), Armed: true, Status: core.OK,
+				Want: "the compressing writer created here is closed before the function hands out what was written (Close flushes the last block and the trailer)"}
+			// the writer escapes to the caller (returned / stored in a result): closing is the caller's business
+			flows := map[ssa.Value]bool{}
+			var walk func(v ssa.Value, d int)
+			escapes := false
+			walk = func(v ssa.Value, d int) {
+				if flows[v] || d > 8 {
+					return
+				}
+				flows[v] = true
+				if v.Referrers() == nil {
+					return
+				}
+				for _, r := range *v.Referrers() {
+					switch x := r.(type) {
+					case *ssa.Extract:
+						if x.Index == 0 {
+							walk(x, d+1)
+						}
+					case *ssa.MakeInterface:
+						walk(x, d+1)
+					case *ssa.ChangeInterface:
+						walk(x, d+1)
+					case *ssa.Phi:
+						walk(x, d+1)
+					case *ssa.TypeAssert:
+						walk(x, d+1)
+					case *ssa.Store:
+						if x.Val == v {
+							if al, ok := x.Addr.(*ssa.Alloc); ok && al.Referrers() != nil {
+								for _, r2 := range *al.Referrers() {
+									if ld, ok := r2.(*ssa.UnOp); ok && ld.Op == token.MUL {
+										walk(ld, d+1)
+									}
+								}
+							} else {
+								escapes = true
+							}
+						}
+					case *ssa.Return:
+						escapes = true
+					}
+				}
+			}
+			walk(call, 0)
+			if escapes {
+				o.Got = "the writer is handed to the caller"
+				obs = append(obs, o)
+				continue
+			}
+			closed := false
+			for _, b := range fn.Blocks {
+				for _, in := range b.Instrs {
+					cl, ok := in.(ssa.CallInstruction)
+					if !ok {
+						continue
+					}
+					cc := cl.Common()
+					isClose := false
+					var recv ssa.Value
+					if cc.IsInvoke() && cc.Method.Name() == "Close" {
+						isClose, recv = true, cc.Value
+					} else if g := cc.StaticCallee(); g != nil && g.Name() == "Close" && len(cc.Args) > 0 {
+						isClose, recv = true, cc.Args[0]
+					}
+					if isClose && flows[recv] {
+						if _, isDefer := in.(*ssa.Defer); isDefer {
+							// a deferred Close runs after the bytes were taken out for the return value
+							continue
+						}
+						closed = true
+					}
+				}
+			}
+			if !closed {
+				o.Status = core.Violated
+				o.Got = "no Close of this writer before the function returns: the compressed stream lacks its last block and trailer (a reader reports an unexpected end of file)"
+			}
+			obs = append(obs, o)
+		}
+	}
+	return obs
+}
+
+// ---------------------------------------------------------------------------
+// R-REFLKIND[interface-target-empty]: a tag decodes to int8, string,
+// map[string]any ...; reflect.Value.Set stores that into a target of kind
+// Interface only if the interface type has no methods, and panics otherwise
+// (`struct{E fmt.Stringer}`, `[]error`). In a decoder function that Sets a
+// freshly decoded value on its target parameter, a test of NumMethod() with an
+// error exit comes first.
+//
+// R-PANIC[nil-pointer-target]: an entry point that refuses a non-pointer
+// destination (a comparison of Kind() with Ptr that leads to an error) refuses
+// a nil pointer too (IsNil in the same function): indirect would Set through it.
+
+func (c *Ctx) InterfaceAndNilTargets(pkg string) []core.Ob {
+	var obs []core.Ob
+	fns := []*ssa.Function{}
+	for _, fn := range c.Funcs() {
+		if inPkgs(fn, pkg) && len(fn.Blocks) > 0 && fn.Parent() == nil {
+			fns = append(fns, fn)
+		}
+	}
+	sortFns(fns)
+	for _, fn := range fns {
+		// ---- Set on a reflect.Value parameter (or what indirect made of it)
+		var sets []*ssa.Call
+		for _, ci := range callsIn(fn, func(n string, _ *ssa.CallCommon) bool { return n == "reflect.(Value).Set" }) {
+			if call, ok := ci.(*ssa.Call); ok && len(call.Call.Args) == 2 {
+				if mk, ok := call.Call.Args[1].(*ssa.Call); ok && calleeName(mk.Common()) == "reflect.ValueOf" {
+					sets = append(sets, call)
+				}
+			}
+		}
+		hasValParam := false
+		for _, p := range fn.Params {
+			if types.TypeString(p.Type(), nil) == "reflect.Value" {
+				hasValParam = true
+			}
+		}
+		if len(sets) >= 3 && hasValParam {
+			o := core.Ob{Rule: "R-REFLKIND", Key: "interface-target-empty:" + core.FnName(fn), Pos: c.P.Pos(fn.Pos()), Func: core.FnName(fn), Armed: true, Status: core.OK,
+				Want: "before a decoded value is Set on a target of kind Interface, the target's method set is tested (NumMethod) with an error exit: only the empty interface can hold it"}
+			// a NumMethod() call compared with a constant, on a block that dominates every such Set
+			var tests []*ssa.BasicBlock
+			for _, ci := range callsIn(fn, func(n string, _ *ssa.CallCommon) bool {
+				return n == "reflect.(Value).NumMethod" || strings.HasSuffix(n, ".NumMethod")
+			}) {
+				v, ok := ci.(ssa.Value)
+				if !ok || v.Referrers() == nil {
+					continue
+				}
+				for _, r := range *v.Referrers() {
+					if cmp, ok := r.(*ssa.BinOp); ok && cmp.Referrers() != nil {
+						for _, u := range *cmp.Referrers() {
+							if iff, ok := u.(*ssa.If); ok && (failsOnlyBlock(iff.Block().Succs[0]) || failsOnlyBlock(iff.Block().Succs[1])) {
+								tb := iff.Block()
+								tests = append(tests, tb)
+								// `if v.Kind() == Interface && v.NumMethod() != 0`: the method test sits on the Interface edge of
+								// a kind test; for a Set under `case Interface` of the same value the kind test stands for both
+								if p := tb.Idom(); p != nil {
+									if pif, ok := p.Instrs[len(p.Instrs)-1].(*ssa.If); ok {
+										if kc, ok := pif.Cond.(*ssa.BinOp); ok && kc.Op == token.EQL && p.Succs[0] == tb {
+											if k, isK := constIntVal(kc.Y); isK && k == int64(reflect.Interface) {
+												tests = append(tests, p)
+											}
+										}
+									}
+								}
+							}
+						}
+					}
+				}
+			}
+			for _, s := range sets {
+				guarded := false
+				for _, tb := range tests {
+					if tb != s.Block() && tb.Dominates(s.Block()) {
+						guarded = true
+					}
+				}
+				if !guarded && o.Status == core.OK {
+					o.Status, o.Pos = core.Violated, c.P.Pos(s.Pos())
+					o.Got = "Set(reflect.ValueOf(decoded)) is reached without a test of the target's method set: a target such as fmt.Stringer or error panics (value of type int8 is not assignable to type fmt.Stringer)"
+				}
+			}
+			obs = append(obs, o)
+		}
+		// ---- entry guards on Kind() != Ptr
+		for _, b := range fn.Blocks {
+			iff, ok := b.Instrs[len(b.Instrs)-1].(*ssa.If)
+			if !ok {
+				continue
+			}
+			cmp, ok := iff.Cond.(*ssa.BinOp)
+			if !ok || (cmp.Op != token.NEQ && cmp.Op != token.EQL) {
+				continue
+			}
+			k, isK := constIntVal(cmp.Y)
+			kc, isCall := cmp.X.(*ssa.Call)
+			if !isK || k != int64(reflect.Ptr) || !isCall || calleeName(kc.Common()) != "reflect.(Value).Kind" {
+				continue
+			}
+			// the value is reflect.ValueOf(parameter), and the non-pointer edge fails
+			rv := kc.Call.Args[0]
+			src := rv
+			if ld, ok := rv.(*ssa.UnOp); ok && ld.Op == token.MUL {
+				if al, ok := ld.X.(*ssa.Alloc); ok {
+					if sv := singleStore(al); sv != nil {
+						src = sv
+					}
+				}
+			}
+			vo, ok := src.(*ssa.Call)
+			if !ok || calleeName(vo.Common()) != "reflect.ValueOf" {
+				continue
+			}
+			bad := b.Succs[0]
+			if cmp.Op == token.EQL {
+				bad = b.Succs[1]
+			}
+			if !failsOnlyBlock(bad) {
+				continue
+			}
+			o := core.Ob{Rule: "R-PANIC", Key: "nil-pointer-target:" + core.FnName(fn), Pos: c.P.Pos(cmp.Pos()), Func: core.FnName(fn), Armed: true, Status: core.OK,
+				Want: "an entry point that refuses a non-pointer destination refuses a nil pointer as well (IsNil): decoding would Set through it"}
+			isNil := false
+			for _, ci := range callsIn(fn, func(n string, _ *ssa.CallCommon) bool { return n == "reflect.(Value).IsNil" }) {
+				if a := ci.Common().Args[0]; a == rv || sameReflectValue(a, rv) {
+					isNil = true
+				}
+			}
+			if !isNil {
+				o.Status = core.Violated
+				o.Got = "only the kind is tested: Decode((*T)(nil)) panics in reflect (Set using unaddressable value) instead of returning an error"
+			}
+			obs = append(obs, o)
+		}
+	}
+	return obs
+}
+
+// failsOnlyBlock: the block (followed over at most two jumps) ends in a return whose last result is an error that is not the nil constant.
+func failsOnlyBlock(b *ssa.BasicBlock) bool {
+	for d := 0; d < 3 && b != nil; d++ {
+		if ret, ok := b.Instrs[len(b.Instrs)-1].(*ssa.Return); ok {
+			if len(ret.Results) == 0 {
+				return false
+			}
+			last := ret.Results[len(ret.Results)-1]
+			if !isErrorType(last.Type()) {
+				return false
+			}
+			k, isConst := last.(*ssa.Const)
+			return !(isConst && k.IsNil())
+		}
+		if len(b.Succs) != 1 {
+			return false
+		}
+		b = b.Succs[0]
+	}
+	return false
 }
